@@ -352,6 +352,73 @@ theorem sniff_binary_raises (c : Cps) (p : Nat) (incl : Bool) (hc : c ≠ []) :
     (detectXMLStream ⟨c, p, true⟩ incl).fp.pos = min 4 c.length := by
   rw [detectXMLStream_binary c p incl hc]; exact ⟨rfl, rfl⟩
 
+/-! ### what "the declared encoding" is for the pattern (`xmlDeclPattern`, matched on the first 2048 characters) -/
+
+/-- T20.4 soundness of the declaration scan [W2]: whatever the pattern returns is the quoted, non-empty, quote-free
+value that follows `encoding=` on the first line of a text that starts with `<?xml`, and `?>` follows on that line.
+Nothing is invented; in particular a document that does not start with `<?xml` has no declared encoding. -/
+theorem decl_sound (buf e : Cps) (h : declMatch buf = some e) :
+    ∃ v q1 q2 w rest, buf = cps "<?xml" ++ v ++ cps "encoding=" ++ [q1] ++ e ++ [q2] ++ w ++ cps "?>" ++ rest ∧
+      v ≠ [] ∧ 10 ∉ v ∧ isQuote q1 ∧ e ≠ [] ∧ (∀ c ∈ e, ¬ isQuote c) ∧ isQuote q2 ∧ 10 ∉ w :=
+  declMatch_sound buf e h
+
+/-- "else UTF-8": a document of at least four characters without BOM that does not start with `<?xml` is UTF-8 -/
+theorem sniff_default (b1 b2 b3 b4 : Nat) (t : Cps) (incl : Bool) (hb : specBom b1 b2 b3 b4 = none)
+    (hx : (cps "<?xml").isPrefixOf (b1 :: b2 :: b3 :: b4 :: t) = false) :
+    detectXML (b1 :: b2 :: b3 :: b4 :: t) incl = .ok (if incl then some (cps "utf-8") else none) := by
+  rw [xml_sniff_spec, hb]
+  have : (cps "<?xml").isPrefixOf ((b1 :: b2 :: b3 :: b4 :: t).take 2048) = false := by
+    cases t with
+    | nil => simpa using hx
+    | cons b5 t => simp only [List.take_succ_cons]; simpa [cps, List.isPrefixOf] using hx
+  simp only [declMatch_none_of_no_prefix _ this]
+
+/-- T20.4 completeness of the declaration scan on single-line declarations [W2]: if the text is
+`<?xml` v `encoding=` q₁ e q₂ w `?>` rest with v, w free of line feeds, e non-empty and free of quotes, and no other
+`encoding=`+quote starts inside v, then e is what the pattern returns — whatever follows. -/
+theorem decl_complete (v e w rest : Cps) (q1 q2 : Nat) (hv : v ≠ []) (hvlf : 10 ∉ v) (hq1 : isQuote q1)
+    (he : e ≠ []) (heq : ∀ c ∈ e, ¬ isQuote c) (hq2 : isQuote q2) (hw : 10 ∉ w)
+    (hfirst : earlierCandidate v q1 = false) :
+    declMatch (cps "<?xml" ++ v ++ cps "encoding=" ++ [q1] ++ e ++ [q2] ++ w ++ cps "?>" ++ rest) = some e :=
+  declMatch_complete v e w rest q1 q2 hv hvlf hq1 he heq hq2 hw hfirst
+
+/-- the canonical declaration, end to end: for every non-empty quote-free name `e` that leaves the declaration within
+the first 2048 characters, and every continuation, `<?xml version="1.0" encoding="e"?>…` is sniffed as `lower e` -/
+theorem sniff_canonical_declaration (e rest : Cps) (incl : Bool) (he : e ≠ []) (heq : ∀ c ∈ e, ¬ isQuote c)
+    (hlen : e.length ≤ 2000) :
+    detectXML (cps "<?xml version=\"1.0\" encoding=\"" ++ e ++ cps "\"?>" ++ rest) incl = .ok (some (lower e)) := by
+  have hsplit : cps "<?xml version=\"1.0\" encoding=\"" ++ e ++ cps "\"?>" ++ rest =
+      cps "<?xml" ++ cps " version=\"1.0\" " ++ cps "encoding=" ++ [34] ++ e ++ [34] ++ [] ++ cps "?>" ++ rest := by
+    have : cps "<?xml version=\"1.0\" encoding=\"" = cps "<?xml" ++ cps " version=\"1.0\" " ++ cps "encoding=" ++ [34] := by
+      decide
+    have h2 : cps "\"?>" = [34] ++ cps "?>" := by decide
+    rw [this, h2]; simp [List.append_assoc]
+  have hm : ∀ r, declMatch (cps "<?xml" ++ cps " version=\"1.0\" " ++ cps "encoding=" ++ [34] ++ e ++ [34] ++ [] ++
+      cps "?>" ++ r) = some e := fun r =>
+    declMatch_complete _ e [] r 34 34 (by decide) (by decide) (Or.inl rfl) he heq (Or.inl rfl) (by simp) (by decide)
+  rw [hsplit]
+  generalize hd : cps "<?xml" ++ cps " version=\"1.0\" " ++ cps "encoding=" ++ [34] ++ e ++ [34] ++ [] ++ cps "?>" = d
+  have hdl : d.length ≤ 2048 := by
+    rw [← hd]; simp only [List.length_append, List.length_nil, List.length_singleton]
+    have a1 : (cps "<?xml").length = 5 := by decide
+    have a2 : (cps " version=\"1.0\" ").length = 15 := by decide
+    have a3 : (cps "encoding=").length = 9 := by decide
+    have a4 : (cps "?>").length = 2 := by decide
+    omega
+  have hx : cps "<?xml" = 60 :: 63 :: 120 :: 109 :: [108] := by decide
+  obtain ⟨t, hdt⟩ : ∃ t, d = 60 :: 63 :: 120 :: 109 :: t := by
+    rw [← hd, hx]; simp only [List.cons_append]; exact ⟨_, rfl⟩
+  have hbom : specBom 60 63 120 109 = none := by decide
+  have hcons : d ++ rest = 60 :: 63 :: 120 :: 109 :: (t ++ rest) := by rw [hdt]; rfl
+  rw [hcons, xml_sniff_spec, hbom, ← hcons, take_append_le d rest 2048 hdl, ← hd, hm]
+
+/-- the two declaration findings, machine-checked at their witnesses (tests): a legal declaration that continues on
+the next line is missed; an element attribute after a declaration without encoding is taken for the declaration -/
+theorem decl_linefeed_missed :
+    detectXML (cps "<?xml version=\"1.0\"\nencoding=\"iso-8859-1\"?><a/>") true = .ok (some (cps "utf-8")) := by decide
+theorem decl_stray_attribute_found :
+    detectXML (cps "<?xml version=\"1.0\"?><x encoding=\"ascii\"/><?pi ?>") true = .ok (some (cps "ascii")) := by decide
+
 /-- consequence of C20-xml-short at the level of `getEncodingInfo`: an application/xml response without charset and
 a document of three characters is reported as "no encoding" where the documented rule says UTF-8 (test, not theorem) -/
 example : (getEncodingInfo (some ⟨some (cps "application/xml"), none, none⟩) (some (cps "<a>")) .absent none).map
